@@ -158,6 +158,7 @@ def generate(rng, tier):
         elif solver == "tabu":
             p = {"cooldown": rng.randrange(1, 6), "max_iter": rng.choice(mi_pool), "max_no_improve": rng.choice([1, 2, 5, 20, 100])}
             case["move_labels"] = rng.choice(["pair", "pair", "pair", "target", "none", "mixed"])  # any hashable is a legal move label
+            case["memo_nbrs"] = rng.random() < 0.35  # the neighbourhood function keeps and re-issues its move lists
         elif solver in ("lns", "alns"):
             p = {"accept": rng.choice(["improving", "accept_all", "simulated_annealing", "peer_refuse", "peer_flip", "peer_worse_only"]),
                  "start_temp": rng.choice([0.1, 100.0]), "cooling_rate": rng.choice([0.5, 0.9995]),
@@ -356,6 +357,13 @@ def run_solver(case, policy, negate=False, minimize=None):
                     ml = case.get("move_labels", "pair")
                     lab = {"pair": lambda t: (s, t), "target": lambda t: t, "none": lambda t: None,
                            "mixed": lambda t: None if t % 2 == 0 else (s, t)}[ml]
+                    if case.get("memo_nbrs"):
+                        # a neighbourhood function that keeps its move lists (memoised per state) and hands out the same list
+                        # object every time, across the runs of the case: the solver must not reorder or edit it
+                        memo = case.setdefault("_nbr_memo", {})
+                        if s not in memo:
+                            memo[s] = [(lab(t), box(t)) for t in nb[s]]
+                        return memo[s]
                     return [(lab(t), box(t)) for t in nb[s]]
 
                 run.result = solvor_mod("tabu").tabu_search(box(case["start"]), f, neighbors_t, cooldown=p["cooldown"],
